@@ -21,7 +21,7 @@ Inductive case :=
 | KInt (n : nat) (obs : list Z)
 | KPair (l : list Z) (obs : list (Z * Z))
 | KNewTrack (eps : Z) (recs : list triple) (s : seg) (cand : option name) (prefix : option string) (obs : name)
-| KToAnn (eps : Z) (segs : list seg) (g : gen) (obs : list triple)
+| KToAnn (eps : Z) (segs : list seg) (g : gen) (obs : option (list triple))   (* None: the call raised *)
 | KSubsegExcess (s : seg) (excess : Z) (refused : bool)   (* duration = segment duration + excess * 2^-30 s *)
 | KSubseg (eps : Z) (s : seg) (dur : Z) (min_dur : option Z) (k1 k2 : Z) (obs : option seg)
 | KRandSeg (eps : Z) (segs : list seg) (obs : list seg).
@@ -44,9 +44,11 @@ Definition check (c : case) : nat :=
                   end in
       verdict spec (name_eqb obs m)
   | KToAnn eps segs g obs =>
-      match to_annotation eps (tl_of eps segs) None None g with
-      | Some a => if triples_eqb obs (itertracks a) then 0%nat else 1%nat
-      | None => 1%nat
+      (* a generator that runs out of names before the segments do: the call is refused, never an incomplete annotation *)
+      match to_annotation eps (tl_of eps segs) None None g, obs with
+      | Some a, Some o => if triples_eqb o (itertracks a) then 0%nat else 1%nat
+      | None, None => 0%nat
+      | _, _ => 1%nat
       end
   | KSubsegExcess s excess refused =>
       (* a sub-segment of that duration cannot lie inside the segment: the call must be refused *)
